@@ -388,3 +388,117 @@ Section Unique.
     rewrite (minimax_arcs_characterised R2 C2 M2 u v Hu Hv Huv). tauto.
   Qed.
 End Unique.
+
+(* ------------------------------------------------------------------ *)
+(* Rooted spanning trees given as parent maps are connected by simple tree paths. *)
+
+Lemma last_app_cons {A} (l1 : list A) a l2 d : last (l1 ++ a :: l2) d = last (a :: l2) d.
+Proof.
+  induction l1 as [|x l1 IH]; [reflexivity|].
+  change ((x :: l1) ++ a :: l2) with (x :: (l1 ++ a :: l2)).
+  rewrite (last_cons_ne x (l1 ++ a :: l2) d d); [exact IH|].
+  intros E. apply app_eq_nil in E. destruct E as [_ E]. discriminate.
+Qed.
+
+(* loop erasure: a walk contains a simple path with the same endpoints *)
+Lemma loop_erase (R : nat -> nat -> Prop) : forall pi u,
+  hd_error pi = Some u -> chain R pi ->
+  exists pi', hd_error pi' = Some u /\ last pi' u = last pi u /\ NoDup pi' /\ chain R pi' /\
+              incl pi' pi.
+Proof.
+  induction pi as [|a t IH]; intros u Hhd Hch; [discriminate|].
+  cbn [hd_error] in Hhd. injection Hhd as ->.
+  destruct t as [|b t'].
+  - exists [u]. split; [reflexivity|]. split; [reflexivity|]. split.
+    + constructor; [intros []|constructor].
+    + split; [exact I|apply incl_refl].
+  - destruct Hch as [Hab Hch].
+    destruct (IH b eq_refl Hch) as (pi' & Hhd' & Hl' & Hnd' & Hch' & Hincl').
+    rewrite (last_cons_ne u (b :: t') u b) by discriminate.
+    destruct (in_dec Nat.eq_dec u pi') as [Hin|Hnin].
+    + destruct (in_split _ _ Hin) as [l1 [l2 E]]. subst pi'.
+      exists (u :: l2). split; [reflexivity|]. split.
+      * rewrite <- Hl'. rewrite last_app_cons. apply last_indep. discriminate.
+      * split; [apply NoDup_app_r in Hnd'; exact Hnd'|].
+        split; [apply chain_app_r in Hch'; exact Hch'|].
+        intros x Hx. right. apply Hincl'. apply in_or_app. right. exact Hx.
+    + exists (u :: pi'). split; [reflexivity|].
+      destruct pi' as [|c pi'']; [discriminate|]. cbn [hd_error] in Hhd'. injection Hhd' as ->.
+      split; [rewrite (last_cons_ne u (b :: pi'') u b) by discriminate; exact Hl'|].
+      split; [constructor; assumption|]. split; [split; assumption|].
+      intros x [<-|Hx]; [left; reflexivity|right; apply Hincl'; exact Hx].
+Qed.
+
+Lemma chain_app (R : nat -> nat -> Prop) l1 a l2 :
+  chain R (l1 ++ [a]) -> chain R (a :: l2) -> chain R (l1 ++ a :: l2).
+Proof.
+  induction l1 as [|x l1 IH]; intros H1 H2; [exact H2|].
+  destruct l1 as [|y l1].
+  - cbn in H1. cbn [app]. split; [apply H1|exact H2].
+  - change ((x :: y :: l1) ++ [a]) with (x :: y :: (l1 ++ [a])) in H1.
+    destruct H1 as [Hxy H1].
+    change ((x :: y :: l1) ++ a :: l2) with (x :: y :: (l1 ++ a :: l2)).
+    split; [exact Hxy|]. apply IH; assumption.
+Qed.
+
+Section SpanningConnected.
+  Variable n : nat.
+  Variable pred : nat -> option nat.
+  Hypothesis closed : forall q p, q < n -> pred q = Some p -> p < n.
+
+  (* the walk from q up to r *)
+  Lemma up_walk r : forall k q, reaches pred q r k -> q < n ->
+    exists pi, hd_error pi = Some q /\ last pi q = r /\ chain (tree_arc pred) pi /\
+               Forall (fun x => x < n) pi.
+  Proof.
+    induction k as [|k IH]; intros q Hk Hq.
+    - inversion Hk; subst. exists [r]. split; [reflexivity|]. split; [reflexivity|].
+      split; [exact I|]. constructor; [exact Hq|constructor].
+    - inversion Hk as [|? p ? ? Hp Hk']; subst.
+      destruct (IH p Hk' (closed q p Hq Hp)) as (pi & Hhd & Hl & Hch & Hfa).
+      exists (q :: pi). split; [reflexivity|].
+      destruct pi as [|x pi']; [discriminate|]. cbn [hd_error] in Hhd. injection Hhd as ->.
+      split; [rewrite (last_cons_ne q (p :: pi') q p) by discriminate; exact Hl|].
+      split; [split; [left; exact Hp|exact Hch]|]. constructor; assumption.
+  Qed.
+
+  Lemma spanning_connected : spanning_parent_map n pred -> connected_by n (tree_arc pred).
+  Proof.
+    intros (r & Hr & Hpr & Hall) u v Hu Hv.
+    destruct (Hall u Hu) as [[ku [Hku _]] _]. destruct (Hall v Hv) as [[kv [Hkv _]] _].
+    destruct (up_walk r ku u Hku Hu) as (p1 & Hhd1 & Hl1 & Hch1 & Hfa1).
+    destruct (up_walk r kv v Hkv Hv) as (p2 & Hhd2 & Hl2 & Hch2 & Hfa2).
+    (* u ... r ... v *)
+    assert (Hne1 : p1 <> []) by (destruct p1; discriminate).
+    assert (Hne2 : p2 <> []) by (destruct p2; discriminate).
+    destruct (exists_last Hne1) as [l1 [x1 E1]]. subst p1.
+    rewrite last_last in Hl1. subst x1.
+    assert (Hrev : exists l2, rev p2 = r :: l2 /\ last (r :: l2) r = v).
+    { destruct p2 as [|y p2']; [congruence|]. cbn [hd_error] in Hhd2. injection Hhd2 as ->.
+      pose proof (hd_error_rev (v :: p2') v Hne2) as H. rewrite Hl2 in H.
+      destruct (rev (v :: p2')) as [|z l2] eqn:Er; [discriminate|].
+      cbn [hd_error] in H. injection H as ->. exists l2. split; [reflexivity|].
+      rewrite <- Er. rewrite (last_indep _ r v).
+      - apply (last_rev (v :: p2') v v). reflexivity.
+      - rewrite Er. discriminate. }
+    destruct Hrev as (l2 & Erev & Hlv).
+    assert (Hch2' : chain (tree_arc pred) (r :: l2)).
+    { rewrite <- Erev. apply chain_rev; [|exact Hch2]. unfold tree_arc. tauto. }
+    set (walk := l1 ++ r :: l2).
+    assert (Hw_hd : hd_error walk = Some u).
+    { unfold walk. destruct l1 as [|a l1']; [exact Hhd1|exact Hhd1]. }
+    assert (Hw_ch : chain (tree_arc pred) walk) by (apply chain_app; assumption).
+    assert (Hw_last : last walk u = v).
+    { unfold walk. rewrite last_app_cons. rewrite (last_indep _ u r) by discriminate. exact Hlv. }
+    assert (Hw_fa : forall x, In x walk -> x < n).
+    { intros x Hx. unfold walk in Hx. apply in_app_or in Hx. rewrite Forall_forall in Hfa1, Hfa2.
+      destruct Hx as [Hx|Hx].
+      - apply Hfa1. apply in_or_app. left; exact Hx.
+      - apply Hfa2. apply in_rev. rewrite Erev. exact Hx. }
+    destruct (loop_erase (tree_arc pred) walk u Hw_hd Hw_ch) as (pi & Hhd & Hl & Hnd & Hch & Hincl).
+    exists pi. split; [|split; assumption].
+    split; [|split; [exact Hhd|rewrite Hl; exact Hw_last]].
+    split; [destruct pi; discriminate|].
+    rewrite Forall_forall. intros x Hx. apply Hw_fa, Hincl, Hx.
+  Qed.
+End SpanningConnected.
